@@ -103,6 +103,15 @@ def handle (args : List String) : Option String :=
       if n == "PLAIN" then (n, plainServer pf) else (n, scriptMech script 1)
     let r := serverSession mechs evs
     pure s!"{showBool r.authn} {r.err.toString} {joinList (r.sent.map showSSent)} {joinList (r.perms.map showPerm)}"
+  | ["srvw", n, sm, steps, perm, peer] => do
+    let budget ← n.toNat?
+    let script ← mapM? parseStep (splitList steps)
+    let evs ← mapM? parseSEv (splitList peer)
+    let pf ← parsePerm perm
+    let mechs := (splitList sm).map fun n =>
+      if n == "PLAIN" then (n, plainServer pf) else (n, scriptMech script 1)
+    let r := serverSessionW mechs budget evs
+    pure s!"{showBool r.authn} {r.err.toString} {joinList (r.sent.map showSSent)} {joinList (r.perms.map showPerm)}"
   | _ => none
 
 end XmppModel.Driver.C03
